@@ -20,7 +20,7 @@ import (
 
 func init() {
 	register(&Check{ID: "C10", Level: "exploration",
-		Rule: "generated configurations (1-5 upstreams, 0-4 shared domain sets with parent/child/full entries, 1-8 rules over {domain?, reverse, reject 1-15 | forward | no action}) run by the real binary, ~30 unique-named probes each judged by a reference first-match evaluator and the per-upstream query logs; plus bad configurations that must be rejected at start-up; " +
+		Rule: "generated configurations (1-5 upstreams, 0-4 shared domain sets with parent/child/full entries (sometimes a list file referenced by several sets, each adding a file of its own), 1-8 rules over {domain?, reverse, reject 1-15 | forward | no action}) run by the real binary, ~30 unique-named probes each judged by a reference first-match evaluator and the per-upstream query logs; plus bad configurations that must be rejected at start-up; " +
 			"one evaluation = one probe or one bad configuration; distinct non-trivial = distinct (rule list shape, index of the deciding rule, outcome) triples plus distinct bad-configuration kinds",
 		Run: runC10})
 }
@@ -35,6 +35,7 @@ type c10Rule struct {
 type c10Set struct {
 	Tag     string
 	Entries []string // "domain:x.y" | "full:x.y" | "x.y"
+	Common  []string // entries of a list file this set shares with other sets (listed before its own file)
 }
 
 type c10Cfg struct {
@@ -88,6 +89,20 @@ func c10Gen(r *gen.R) *c10Cfg {
 		}
 		cfg.Sets = append(cfg.Sets, s)
 	}
+	if len(cfg.Sets) >= 2 && r.P(0.35) {
+		// one list file referenced by several sets (a shared block list), each set adding a file of
+		// its own after it: what one set adds must not show up in another
+		var common []string
+		for k := r.Range(1, 3); k > 0; k-- {
+			suf := gen.Pick(r, c10Suffixes)
+			common = append(common, gen.Pick(r, []string{"domain:", "domain:sub.", "full:fixed."})+suf)
+		}
+		for i := range cfg.Sets {
+			if i < 2 || r.P(0.6) {
+				cfg.Sets[i].Common = common
+			}
+		}
+	}
 	for i := 0; i < r.Range(1, 8); i++ {
 		var ru c10Rule
 		if len(cfg.Sets) > 0 && r.P(0.75) {
@@ -115,7 +130,7 @@ func c10Gen(r *gen.R) *c10Cfg {
 // reference: does the set match the lower-cased name (labels)?
 func c10SetMatch(s *c10Set, name string) bool {
 	name = strings.TrimSuffix(strings.ToLower(name), ".")
-	for _, e := range s.Entries {
+	for _, e := range append(append([]string{}, s.Common...), s.Entries...) {
 		kind, exp := "domain", e
 		if k, x, ok := strings.Cut(e, ":"); ok {
 			kind, exp = k, x
@@ -179,6 +194,12 @@ func (cfg *c10Cfg) yaml(dir string, upAddr map[string]string, listenUDP, listenT
 		for _, s := range cfg.Sets {
 			fp := filepath.Join(dir, s.Tag+".txt")
 			os.WriteFile(fp, []byte("# generated\n"+strings.Join(s.Entries, "\n")+"\n"), 0644)
+			if len(s.Common) > 0 {
+				cp := filepath.Join(dir, "common.txt")
+				os.WriteFile(cp, []byte("# shared by several sets\n"+strings.Join(s.Common, "\n")+"\n"), 0644)
+				fmt.Fprintf(&y, "  - tag: %s\n    files: [\"%s\", \"%s\"]\n", s.Tag, cp, fp)
+				continue
+			}
 			fmt.Fprintf(&y, "  - tag: %s\n    files: [\"%s\"]\n", s.Tag, fp)
 		}
 	}
